@@ -3,7 +3,7 @@ from engines import sftpsim
 PROPERTY = "C39"
 ENGINE = "sftpsim (consumer class) + sftpsim/handle over gridsim"
 LEVEL = "exploration"
-COUNTS = {"quick": 12000, "thorough": 300000}
+COUNTS = {"quick": 7200, "thorough": 300000}
 CHUNK = 200
 TIMEOUT = 120
 WALL = {"quick": 120, "thorough": 1500}
